@@ -174,14 +174,57 @@ fn curves(rng: &mut Rng) {
     }
 }
 
+/// "any rigid motion": besides ordinary ones, motions far below the size of the part (a fixture
+/// correction of a fraction of a micron, one step of an iterative refinement) and pure tiny rotations
+fn iso3_any(rng: &mut Rng, tm: f64) -> (Iso3, bool) {
+    match rng.below(6) {
+        0 => {
+            let s = 10f64.powf(rng.range(-9.0, -5.0));
+            let axis = Vector3::new(rng.gauss(), rng.gauss(), rng.gauss() + 1e-9).normalize();
+            (Iso3::new(Vector3::new(rng.range(-s, s), rng.range(-s, s), rng.range(-s, s)), axis * (s * rng.range(-1.0, 1.0))), true)
+        }
+        1 => {
+            let s = 10f64.powf(rng.range(-9.0, -5.0));
+            let axis = Vector3::new(rng.gauss(), rng.gauss(), rng.gauss() + 1e-9).normalize();
+            (Iso3::new(Vector3::zeros(), axis * s), true)
+        }
+        _ => (gen::iso3(rng, tm), false),
+    }
+}
+
 fn meshes_and_clouds(rng: &mut Rng) {
     let tm = *rng.pick(&[1.0, 30.0, 1e3]);
-    let tol = 1e-9 * (1.0 + tm) * 30.0;
-    let mesh: Mesh = gen::mesh(rng);
-    let t = gen::iso3(rng, tm);
+    let mut mesh: Mesh = gen::mesh(rng);
+    let (t, tiny) = iso3_any(rng, tm);
+    if tiny && rng.chance(0.5) {
+        // a part measured far from the origin of its coordinate system
+        mesh.transform(&gen::iso3(rng, 1e4));
+    }
+    let size = mesh.vertices().iter().map(|p| p.coords.norm()).fold(1.0, f64::max);
+    let tol = if tiny { 1e-11 * size } else { 1e-9 * (1.0 + tm) * 30.0 };
     let mut moved = mesh.clone();
     moved.transform(&t);
     let mut v = Verdict::new();
+    // the entity itself commutes with T: every vertex moves by T, connectivity is kept
+    let worst = mesh.vertices().iter().zip(moved.vertices()).map(|(a, b)| (t * a - b).norm()).fold(0.0, f64::max);
+    v.require(moved.faces() == mesh.faces() && worst <= 1e-12 * (size + t.translation.vector.norm()), "mesh.vertices_move_by_t",
+        || format!("worst vertex error {worst:e} (size {size:e}, |translation| {:e}, angle {:e})", t.translation.vector.norm(), t.rotation.angle()));
+    // transforming in sequence equals transforming by the composition; T then T^-1 restores
+    {
+        let (t2, _) = iso3_any(rng, tm);
+        let mut seq = moved.clone();
+        seq.transform(&t2);
+        let comp = t2 * t;
+        let mut once = mesh.clone();
+        once.transform(&comp);
+        let w = seq.vertices().iter().zip(once.vertices()).map(|(a, b)| (a - b).norm()).fold(0.0, f64::max);
+        let mag = size + t.translation.vector.norm() + t2.translation.vector.norm();
+        v.require(w <= 1e-11 * mag, "mesh.sequence_equals_composition", || format!("{w:e} (size {mag:e})"));
+        let mut back = moved.clone();
+        back.transform(&t.inverse());
+        let w = back.vertices().iter().zip(mesh.vertices()).map(|(a, b)| (a - b).norm()).fold(0.0, f64::max);
+        v.require(w <= 1e-11 * mag, "mesh.inverse_restores", || format!("{w:e} (size {mag:e})"));
+    }
     for _ in 0..4 {
         let f = mesh.faces()[rng.below(mesh.faces().len())];
         let base = mesh.vertices()[f[0] as usize];
